@@ -78,8 +78,14 @@ def run(ctx):
     d = translate.dispatch_data()
     wire = translate.dispatch_wire(d)
     drv = common.Driver()
-    ok, offenders = drv.run([f"DISPATCH {wire}"])[0].split(" ")
-    offenders = [] if offenders == "-" else offenders.split(",")
+    parts = drv.run([f"DISPATCH {wire}"])[0].split(" ")
+    if len(parts) == 2:
+        ok, offenders = parts
+        offenders = [] if offenders == "-" else offenders.split(",")
+    else:
+        ok, offenders = "0", ["translator:unrecognised-dispatch-data"]
+    if any(c[0] == ["?unrecognised-test"] for c in d["chain"]):
+        offenders.append("translator:unrecognised-test-in-chain")
     cases, lines = [], []
     unparsable = []
     for kind, pos, src in programs():
@@ -127,7 +133,7 @@ def run(ctx):
             violations.append({"signature": {"stmt": k, "outcome": "dispatch-" + off.split(":")[1]},
                                "what": f"dispatcher data: {off} (hypothesis dispatchOK of transform_refuses is false)",
                                "payload": {"offender": off, "chain": d["chain"]}})
-    if mism and not violations:
+    if mism:
         path = common.write_replay("C11", {"property": "C11", "kind": "correspondence-broken",
                                            "correspondence": "Scfg.Model.Dispatch (regenerated data) vs AST2SCFG", **mism[0]})
         broken.append({"signature": {"kind": "correspondence"}, "replay": path, "nfi": True, "what": "dispatch model mismatch"})
